@@ -307,8 +307,26 @@ def execute(trace: dict, oracles: list, known_sigs=(), collect_log=True) -> dict
         res["error"] = "unhandled SimCrash"
     except HarnessError as e:
         res["error"] = "harness: %s" % e
-    except Exception:  # noqa: BLE001  (harness bug, never a verdict)
-        res["error"] = "harness exception:\n" + traceback.format_exc()[-3000:]
+    except Exception as e:  # noqa: BLE001
+        # An exception that escapes here comes from a read, a re-open or an oracle - operations that may be refused are handled in
+        # run_event.  If the INNERMOST frame is python-pptx's (the library raised while being read or re-opened, and nothing of the
+        # harness is between that frame and the raise) it is a verdict about the library; anything else is a harness bug, never a verdict.
+        tb = traceback.extract_tb(e.__traceback__)
+        site = None
+        if tb and ("/pptx/" in tb[-1].filename) and "/verif/" not in tb[-1].filename:
+            site = "%s:%s" % (tb[-1].filename.rpartition("/pptx/")[2], tb[-1].name)
+        if site is not None and not isinstance(e, (MemoryError, RecursionError)):
+            ev_ = trace["events"][w.cur_event_index]["op"] if 0 <= w.cur_event_index < len(trace["events"]) else "end"
+            sig = "library-raised-while-read-or-re-opened|%s|%s" % (type(e).__name__, site)
+            k = None
+            try:
+                w.report(sig, "during %s\n%s" % (ev_, traceback.format_exc()[-2500:]),
+                         "(every clause is observed through the public read API and by re-opening saved files: these must not raise)")
+            except Violation as v:
+                res["violation"] = {"sig": v.sig, "detail": v.detail[:4000], "clause": v.clause, "event_index": w.cur_event_index}
+                w.note(kind="violation", sig=v.sig)
+        else:
+            res["error"] = "harness exception:\n" + traceback.format_exc()[-3000:]
     res["digest"] = w.digest()
     res["outcomes"] = w.outcomes
     res["faults"] = dict(w.faults)
